@@ -40,6 +40,10 @@ type call struct {
 //	'p' prompt reader: receives until its channel is closed, never leaves
 //	's' slow reader: receives k values, stops reading, cancels its context at leaveAt
 //	'x' stalled: never reads; cancels its context at leaveAt
+//	'q' prompt reader that cancels its context at leaveAt (keeps reading until
+//	    its channel is closed)
+//	'r' slow reader that stays: receives k values, pauses until leaveAt, then
+//	    reads promptly for ever; never cancels
 type sub struct {
 	kind    byte
 	k       int
@@ -53,6 +57,7 @@ type scen struct {
 	closeAt  int    // ms; -1: no Close
 	timeline bool   // clock moves only at quiescence; exact timing oracle
 	label    string // replaces the rendering of the Batch scripts in the name
+	class    string // finding key; default: by the kinds of subscribers and the mode
 }
 
 func (s scen) name() string {
@@ -67,7 +72,7 @@ func (s scen) name() string {
 	var u []string
 	for _, x := range s.subs {
 		t := string(x.kind)
-		if x.kind == 's' {
+		if x.kind == 's' || x.kind == 'r' {
 			t += fmt.Sprint(x.k)
 		}
 		if x.kind != 'p' {
@@ -217,8 +222,19 @@ func mkExec(s scen) *mc.Exec {
 				return true
 			}
 			switch x.kind {
-			case 'p':
+			case 'p', 'q':
 				mc.GoNamed(fmt.Sprintf("reader%d", i), func() {
+					for read() {
+					}
+				})
+			case 'r':
+				mc.GoNamed(fmt.Sprintf("reader%d", i), func() {
+					for n := 0; n < x.k; n++ {
+						if !read() {
+							return
+						}
+					}
+					sleepUntil(x.leaveAt)
 					for read() {
 					}
 				})
@@ -258,7 +274,7 @@ func mkExec(s scen) *mc.Exec {
 		}
 		// subscribers that never read leave last in the default order
 		for i, x := range s.subs {
-			if x.kind == 'x' {
+			if x.kind == 'x' || x.kind == 'q' {
 				i, x := i, x
 				mc.GoNamed(fmt.Sprintf("leave%d", i), func() {
 					sleepUntil(x.leaveAt)
@@ -390,8 +406,8 @@ func mkExec(s scen) *mc.Exec {
 			}
 			sort.Strings(keys) // deterministic report
 			for i, sr := range subs {
-				if sr.kind != 'p' {
-					continue
+				if sr.kind != 'p' && sr.kind != 'r' {
+					continue // only subscribers that never cancel
 				}
 				for _, key := range keys {
 					cs := byKey[key]
@@ -606,9 +622,13 @@ const (
 	classTimeline = "batcher/debounce-timeline"
 	classRace     = "batcher/prompt-subscribers-race"
 	classLeave    = "batcher/execute-wedges-on-departed-subscriber"
+	classDuring   = "batcher/departure-during-delivery"
 )
 
 func classOf(s scen) string {
+	if s.class != "" {
+		return s.class
+	}
 	for _, x := range s.subs {
 		if x.kind != 'p' {
 			return classLeave
@@ -769,9 +789,40 @@ func scaledScenarios() []hx.Scenario {
 			}
 		}
 	}
+	// (E) a subscriber leaves while a delivery is in progress: FOUR subscribers
+	// [A prompt, B slow / stalled with a full buffer, C prompt, D prompt]; the
+	// 4th delivery (21 ms) parks on B; A, earlier in the list, cancels at 23 ms
+	// and its cleanup edits the list under the parked delivery; B resumes
+	// reading / leaves at 25 ms. C and D stay: each value exactly once, same
+	// sequence.
+	for _, bsub := range []sub{{kind: 'x', leaveAt: 25}, {kind: 'r', k: 1, leaveAt: 25}, {kind: 's', k: 1, leaveAt: 25}} {
+		q := sub{kind: 'q', leaveAt: 23}
+		for _, ss := range [][]sub{{q, bsub, p, p}, {p, bsub, q, p}} {
+			for _, c := range []int{-1, 30} {
+				for _, tl := range []bool{false, true} {
+					first := ss[0].kind == 'q' && c == -1 && !tl && bsub.kind != 's'
+					sc := scen{prods: [][]call{parse(1, "a0 b0 a11 b0")}, subs: ss, closeAt: c, timeline: tl, class: classDuring}
+					before := len(out)
+					add(sc, 2, 3, !first)
+					if first && len(out) > before {
+						out[len(out)-1].QuickMin = hx.Ptr(1)
+					}
+				}
+			}
+		}
+	}
 	// shards are handed out in list order and a part that runs out of budget
-	// skips the tail: the departing-subscriber family goes first
-	sort.SliceStable(out, func(a, b int) bool { return out[a].Class == classLeave && out[b].Class != classLeave })
+	// skips the tail: the departing-subscriber families go first
+	rank := func(c string) int {
+		switch c {
+		case classDuring:
+			return 0
+		case classLeave:
+			return 1
+		}
+		return 2
+	}
+	sort.SliceStable(out, func(a, b int) bool { return rank(out[a].Class) < rank(out[b].Class) })
 	return out
 }
 
